@@ -37,7 +37,7 @@ def prepare_common():
     # The clock and the task-id source must be under the simulator's control (replay); the threading
     # seams are re-bound wherever eliot uses them, but a tree that does not use a lock somewhere is not
     # an error of the harness.
-    seams.require_seams("uuid4")
+    seams.require_seams("uuid4|uuid")
 
 
 def result(rc, prog, nontrivial=None, extra_stats=None, distinct_extra=None):
